@@ -30,6 +30,8 @@ def RelClosed (d : ClassDiagram) (comp : Option Nat) (drv : Bool) (r : Rel) : Pr
     * key letters stay distinct when upper-cased (`define_class` keys its dict by `kind.upper()`)
     * the names of the core types 1..5 are pyxtuml type names
     * the identifiers of a class have different numbers
+    * the kept attributes of a class have names that stay distinct when upper-cased (`define_class` raises
+      MetaModelException otherwise)
     * every relationship in scope has its classes in scope, its O_REFs resolve, and the referred attributes
       are kept attributes (`define_association` raises otherwise) -/
 structure ReloadOk (u : UC) (d : ClassDiagram) (comp : Option Nat) (drv : Bool) : Prop where
@@ -37,6 +39,7 @@ structure ReloadOk (u : UC) (d : ClassDiagram) (comp : Option Nat) (drv : Bool) 
   coreTypes : ∀ t ∈ d.dts, ∀ n, t.kind = .core n → 1 ≤ n → n ≤ 5 → (tyOfName u (upper t.name).toList).isSome = true
   identNums : ∀ c ∈ d.classes, (c.idents.map (·.num)).Nodup
   rels : ∀ r ∈ d.rels, inScope d.containers comp r.parent = true → RelClosed d comp drv r
+  attrNames : ∀ c ∈ d.classes, attrNamesOk u ((classOf d drv c).toM.attrs) = true
 
 theorem natText_inj {a b : Nat} (h : natText a = natText b) : a = b := by
   have := congrArg natOfText h
@@ -126,7 +129,7 @@ theorem endPair_closed {u : UC} {d : ClassDiagram} {comp : Option Nat} {drv : Bo
 
 theorem toMM_closed {u : UC} {d : ClassDiagram} {comp : Option Nat} {drv : Bool} (ok : ReloadOk u d comp drv) :
     ((extract d comp drv).toMM).Closed u := by
-  refine ⟨?_, ?_, ?_, ?_, ?_⟩
+  refine ⟨?_, ?_, ?_, ?_, ?_, ?_⟩
   · -- distinct upper-cased kinds: a sublist of the diagram's
     have : ((extract d comp drv).toMM).classes.map (fun c => u.upper c.kind) =
         (d.classes.filter (fun c => inScope d.containers comp c.parent)).map (fun c => u.upper c.kl.toList) := by
@@ -237,6 +240,9 @@ theorem toMM_closed {u : UC} {d : ClassDiagram} {comp : Option Nat} {drv : Bool}
   · intro cm hcm r hr
     obtain ⟨c, _, _, rfl⟩ := mem_toMM_classes hcm
     simp [SClass.toM] at hr
+  · intro cm hcm
+    obtain ⟨c, hc, _, rfl⟩ := mem_toMM_classes hcm
+    exact ok.attrNames c hc
 
 /-- THE RELOAD THEOREM at build level -/
 theorem reload_build {u : UC} {d : ClassDiagram} {comp : Option Nat} {drv : Bool} (names : NamesOk u d)
